@@ -1,4 +1,5 @@
 import BeffVerif.Props.C03
+import BeffVerif.Props.C03NoThrow
 open BeffVerif.C03
 #print axioms safeParse_success_iff_validate
 #print axioms safeParse_failure_iff_not_validate
@@ -7,3 +8,4 @@ open BeffVerif.C03
 #print axioms no_mutation_partial
 #print axioms union_parse_drops_proto_named_key
 #print axioms array_intersection_parses_to_object
+#print axioms validate_no_throw
